@@ -208,7 +208,24 @@ func runC07(c *Ctx) {
 						ok = true
 					}
 				})
-				c.Check(ok, "O7.2", fk(g)+":"+hf+"-reset-before-seek", sk.Pos(), "the header accumulator "+hf+" must be replaced by a fresh map before seeking back to the start (in-file headers are forgotten at each new pass)")
+				// ... or after the seek, before anything else can happen: every path from the seek to a return that is not
+				// the seek's own failure, or back into the loop, passes the reset
+				if !ok {
+					seekErr, _ := errResult(sk)
+					EachInstr(g, func(in ssa.Instruction) {
+						isReset := false
+						if v, isSt := StoreToField(in, "", hf); isSt {
+							_, isReset = Strip(v).(*ssa.MakeMap)
+						}
+						if cl, isCall := in.(*ssa.Call); isCall && IsBuiltinCall(cl, "clear") && len(cl.Call.Args) == 1 && IsFieldLoad(cl.Call.Args[0], "", hf) {
+							isReset = true
+						}
+						if isReset && resetCoversSeek(sk, in, seekErr) {
+							ok = true
+						}
+					})
+				}
+				c.Check(ok, "O7.2", fk(g)+":"+hf+"-reset-before-seek", sk.Pos(), "the header accumulator "+hf+" must be replaced by a fresh map where the decoder seeks back to the start - before the seek in the same loop, or on every path from the seek to a successful return / the next round (in-file headers are forgotten at each new pass)")
 			}
 			// O7.3
 			errv, _ := errResult(sk)
@@ -409,6 +426,52 @@ func loopHeaderOf(b *ssa.BasicBlock) *ssa.BasicBlock {
 		}
 	}
 	return best
+}
+
+// resetCoversSeek: every path from the seek call to a return of the function (other than under "the seek failed"),
+// or round to a loop header that the seek sits in, passes the instruction reset.
+func resetCoversSeek(sk *ssa.Call, reset ssa.Instruction, seekErr ssa.Value) bool {
+	seen := map[*ssa.BasicBlock]bool{}
+	var walk func(b *ssa.BasicBlock, from int) bool
+	walk = func(b *ssa.BasicBlock, from int) bool {
+		for i := from; i < len(b.Instrs); i++ {
+			in := b.Instrs[i]
+			if in == reset {
+				return true
+			}
+			if r, isRet := in.(*ssa.Return); isRet {
+				for _, f := range CmpFactsAt(r) {
+					if f.Op == token.NEQ && seekErr != nil && ((Strip(f.X) == seekErr && IsNilConst(f.Y)) || (Strip(f.Y) == seekErr && IsNilConst(f.X))) {
+						return true
+					}
+				}
+				return false
+			}
+		}
+		for _, su := range b.Succs {
+			if su.Dominates(sk.Block()) && su != sk.Block() {
+				return false // next round of a loop around the seek
+			}
+			if su == sk.Block() {
+				return false
+			}
+			if seen[su] {
+				continue
+			}
+			seen[su] = true
+			if !walk(su, 0) {
+				return false
+			}
+		}
+		return true
+	}
+	idx := -1
+	for i, in := range sk.Block().Instrs {
+		if in == ssa.Instruction(sk) {
+			idx = i
+		}
+	}
+	return idx >= 0 && walk(sk.Block(), idx+1)
 }
 
 func sameInnermostLoop(a, b *ssa.BasicBlock) bool {
